@@ -115,7 +115,9 @@ theorem tls_export_union (M : TlsMachine κ σ ο) (o : Opts) {A B C : List Pkt}
 
 /-- The routing hypothesis, spelled out: a session leaves a datagram alone iff the datagram is `Apart` from it — other
     4-tuple; long header: empty DCID or a DCID the session does not know; short header: no non-empty CID of the session is a
-    prefix of bytes 1.. of the datagram. -/
+    prefix of bytes 1.. of the datagram. (The receiver-side restriction of the candidates applies only ON the session's
+    4-tuple, where the session takes the datagram anyway through the fallback; so for "leaves alone" all CIDs still count and
+    this statement is the same for the old and the repaired rule — see `own_cid_never_misdirects` for what changed.) -/
 theorem quic_foreign_iff (M : QuicMachine κ τ ο) (s : QuicSess τ) (x : QIn κ) (hx : x.h ≠ .tooShort) :
     quicTake M x.h x.p s = none ↔ Apart M s x :=
   quicTake_eq_none_iff M s x hx
@@ -170,15 +172,64 @@ theorem empty_cid_never_chosen (cids : List Bytes) (payload : Bytes) : shortPick
   intro h
   exact (shortPick_some h).2.1 rfl
 
-/-- A session that knows only empty CIDs takes a short-header datagram by its 4-tuple or not at all. -/
+/-- A session whose candidate CIDs for this datagram (the receiver's CIDs on the session's own address pair, all of them
+    elsewhere) are all empty takes a short-header datagram by its 4-tuple or not at all. -/
 theorem short_with_only_empty_cids_falls_to_tuple (M : QuicMachine κ τ ο) (p : Pkt) (s : QuicSess τ)
-    (h : ∀ c, c ∈ M.clientCids s.st ∨ c ∈ M.serverCids s.st → c = []) :
+    (h : ∀ c ∈ shortCandidates (M.clientCids s.st) (M.serverCids s.st) (s.side p), c = []) :
     quicTake M .short p s = if s.matches p then some [] else none := by
-  have : shortPick (M.clientCids s.st ++ M.serverCids s.st) p.payload = none := by
+  have : shortPick (shortCandidates (M.clientCids s.st) (M.serverCids s.st) (s.side p)) p.payload = none := by
     rw [shortPick_eq_none_iff]
     intro c hc hne
-    exact absurd (h c (List.mem_append.mp hc)) hne
+    exact absurd (h c hc) hne
   simp [quicTake, cidMatch, this, Hdr.dcid]
+
+/-! ### a session's own CIDs on its own address pair -/
+
+/-- `QuicSession.packet_isserver(packet, dcid)` (quic_session.py:240-249) on the two CID sets: the direction `handle_packet`
+    derives from the DCID it is handed; `fromClientAddr` = the datagram comes from the session's client endpoint.
+    (`Quic.Session.packetIsServer` is this function on the session state.) -/
+def dirIsServer (cc sc : List Bytes) (fromClientAddr : Bool) (dcid : Bytes) : Bool :=
+  if dcid.length > 0 ∧ dcid ∈ sc then false
+  else if dcid.length > 0 ∧ dcid ∈ cc then true
+  else if fromClientAddr then false
+  else true
+
+/-- On the session's own 4-tuple a short-header datagram is handed over either with a non-empty CID chosen by its RECEIVER
+    that it starts with (a `server_cids` member for a datagram from the client endpoint, a `client_cids` member otherwise), or
+    — no such CID — through the 4-tuple fallback with the header-derived DCID `b""`. Never with a CID of its sender. -/
+theorem own_cid_never_misdirects (M : QuicMachine κ τ ο) (p : Pkt) (s : QuicSess τ) (hm : s.matches p = true) :
+    ∃ c, quicTake M .short p s = some c ∧
+      (c = [] ∨ (c ≠ [] ∧ c <+: p.payload.drop 1 ∧
+        if p.src = s.client then c ∈ M.serverCids s.st else c ∈ M.clientCids s.st)) := by
+  unfold quicTake
+  cases hc : cidMatch (M.clientCids s.st) (M.serverCids s.st) (s.side p) .short p.payload with
+  | none => exact ⟨[], by simp [hm, Hdr.dcid], .inl rfl⟩
+  | some c =>
+    refine ⟨c, rfl, .inr ?_⟩
+    simp only [cidMatch] at hc
+    obtain ⟨h1, h2, h3⟩ := shortPick_some hc
+    refine ⟨h2, h3, ?_⟩
+    by_cases hs : p.src = s.client
+    · simpa [Sess.side, hm, hs, shortCandidates] using h1
+    · simpa [Sess.side, hm, hs, shortCandidates] using h1
+
+/-- Hence the direction `packet_isserver` reads off the DCID it is handed agrees with the direction by address — provided
+    no non-empty CID is in both sets of the session (`hdisj`; the two endpoints choose their CIDs independently, so this again
+    holds for conformant random CIDs only with high probability). -/
+theorem own_cid_direction_agrees (M : QuicMachine κ τ ο) (p : Pkt) (s : QuicSess τ) (hm : s.matches p = true) (c : Bytes)
+    (h : quicTake M .short p s = some c) (hdisj : ∀ d, d ≠ [] → d ∈ M.clientCids s.st → d ∉ M.serverCids s.st) :
+    dirIsServer (M.clientCids s.st) (M.serverCids s.st) (p.src == s.client) c = !(p.src == s.client) := by
+  obtain ⟨c', h', hc⟩ := own_cid_never_misdirects M p s hm
+  rw [h] at h'; cases h'
+  rcases hc with rfl | ⟨hne, _, hmem⟩
+  · cases hb : (p.src == s.client) <;> simp [dirIsServer]
+  · have hlen : 0 < c.length := List.length_pos_iff.mpr hne
+    by_cases hs : p.src = s.client
+    · simp only [hs, if_true] at hmem
+      simp [dirIsServer, hs, hlen, hmem]
+    · simp only [hs, if_false] at hmem
+      have : c ∉ M.serverCids s.st := hdisj c hne hmem
+      simp [dirIsServer, hs, hlen, hmem, this]
 
 /-- What is chosen for a short header is the LONGEST non-empty CID of the session that the datagram starts with. -/
 theorem short_choice_is_longest (cids : List Bytes) (payload c : Bytes) (h : shortPick cids payload = some c) :
@@ -358,6 +409,24 @@ theorem quic_route_counterexample : ¬ quic_route_statement := by
 theorem quic_cross_routing_by_tuple :
     (quicRun (Rec.quic (script [3, 7])) opts [] [a1, { b1 with p := udp 2 (ep 1 5000) (ep 9 443) (long [0xBB]) }]).map
       (fun s => s.st.log.map (·.1)) = [[1, 2]] := by decide
+
+/-- The rule as it was (every CID of the session is a candidate in both directions): the client uses the CID `fe`, the server
+    a zero-length CID; a client→server short-header datagram carries NO DCID, and its first protected byte happens to be `fe`
+    (1 datagram in 256). It was matched with the client's own CID `fe` and `packet_isserver` then took it for a datagram from
+    the server; under the receiver-side rule it falls through to the 4-tuple with DCID `b""` and the direction is right. -/
+theorem legacy_own_cid_misdirects :
+    let M := Rec.quic fun _ => ([], [])
+    let s : QuicSess Rec.QState := ⟨ep 9 443, ep 1 5000, ⟨[], [[0xfe]], [[]]⟩⟩
+    let p := udp 7 (ep 1 5000) (ep 9 443) [0x40, 0xfe, 1, 2, 3]
+    s.matches p = true ∧
+    Legacy.quicTake M .short p s = some [0xfe] ∧ dirIsServer s.st.cc s.st.sc (p.src == s.client) [0xfe] = true ∧
+    quicTake M .short p s = some [] ∧ dirIsServer s.st.cc s.st.sc (p.src == s.client) [] = false := by decide
+
+/-- the other direction: a server→client datagram is still matched with the client's CID -/
+example :
+    let M := Rec.quic fun _ => ([], [])
+    let s : QuicSess Rec.QState := ⟨ep 9 443, ep 1 5000, ⟨[], [[0xfe]], [[]]⟩⟩
+    quicTake M .short (udp 8 (ep 9 443) (ep 1 5000) [0x40, 0xfe, 1, 2, 3]) s = some [0xfe] := by decide
 
 end Ex
 
